@@ -108,9 +108,12 @@ def build_harness(name, src, flags=(), extra_deps=()):
         try:
             dirs = sorted((d for d in os.listdir(os.path.join(BUILD, 'bin')) if d.startswith('r-')),
                           key=lambda d: os.path.getmtime(os.path.join(BUILD, 'bin', d)))
-            for d in dirs[:-4]:
-                import shutil
-                shutil.rmtree(os.path.join(BUILD, 'bin', d), ignore_errors=True)
+            for d in dirs[:-6]:
+                # never prune a directory that was touched recently: another process may be
+                # compiling into it
+                if time.time() - os.path.getmtime(os.path.join(BUILD, 'bin', d)) > 3 * 3600:
+                    import shutil
+                    shutil.rmtree(os.path.join(BUILD, 'bin', d), ignore_errors=True)
         except OSError:
             pass
         tmp = out + '.tmp'
